@@ -150,7 +150,7 @@ def gen_cases(rec, rng, tier):
         Tm = sorted({(rep[cls[p]], a, rep[cls[q]]) for (p, a, q) in R[2]})
         M = fa.make(Qm, R[1], Tm, rep[cls[R[3]]], sorted({rep[cls[q]] for q in R[4]}))
         yield {'cls': 'vs_minimised', 'ref1': R, 'ref2': fag.random_renaming(rng, M)}
-        other = fag.with_alphabet(fag.random_dfa(rng, n, k, names=fag.random_names(rng, n)), R[1])
+        other = fag.with_alphabet(fag.random_dfa(rng, n, k, names=fag.random_names(rng, n, exotic=True)), R[1])
         yield {'cls': 'same_size_other_language', 'ref1': R, 'ref2': other}
         # flip acceptance of one reachable state / retarget one transition of the copy
         reach = sorted(fa.reachable(ren))
